@@ -251,6 +251,7 @@ func main() {
 	factsLRUCallbacks()
 	factsSkeleton()
 	factsStoreConstructors()
+	factsPools()
 
 	out.WriteString("\nend Pike.Facts\n")
 	if outPath == "" {
